@@ -350,6 +350,11 @@ def main():
                        dict(bf='ALLOW', mk=any_m, nwith=1, wk=['NESNAP'], wlr=False, nseq=0, nse=1, rk='NONE', vform=False),
                        dict(bf='T13', mk=any_m, nwith=2, wk=['NESNAP', 'GE'], wlr=True, nseq=0, nse=0, rk='THROW_STD', vform=False),
                        dict(bf='AL1', mk=any_m, nwith=1, wk=['NESNAP'], wlr=True, nseq=1, nse=0, rk='NONE', vform=False)]
+        if f['argk'][:1] == ['vec']:
+            # every range matcher at least once, as an ALLOW and as a bounded REQUIRE
+            for rmk in ['RINC2', 'RINC11', 'RIS', 'RSTART', 'RENDS', 'RENDS3', 'RPERM', 'RALL', 'RNONE', 'RANY', 'RNOTIS']:
+                forced += [dict(bf='ALLOW', mk=[rmk], nwith=0, nseq=0, nse=0, rk='NONE', vform=False),
+                           dict(bf='T13', mk=[rmk], nwith=0, nseq=0, nse=1, rk='NONE', vform=False)]
         if f['ret'] == 'pair':
             forced += [dict(bf='ALLOW', mk=any_m, nwith=0, nseq=0, nse=0, rk='LRPAIR_VAR', vform=False),
                        dict(bf='T13', mk=val_m, nwith=0, nseq=0, nse=1, rk='LRPAIR_VAR', vform=False)]
